@@ -56,7 +56,7 @@ func dump(ms *yang.Modules) string {
 			for _, id := range m.Identity {
 				fmt.Fprintf(&b, "  identity %s:", id.Name)
 				for _, v := range id.Values {
-					fmt.Fprintf(&b, " %s:%s", canon.OwnerName(v), v.Name)
+					fmt.Fprintf(&b, " %s:%s", yang.RootNode(v).FullName(), v.Name)
 				}
 				b.WriteByte('\n')
 			}
@@ -462,8 +462,10 @@ func genRevisions(t *rapid.T) Case {
 			name = "foo@" + d + ".yang"
 		}
 		// each version defines t differently and has its own leaf, so a different binding shows
-		c.Sources = append(c.Sources, ymodel.Source{Name: name, Text: fmt.Sprintf("module foo { namespace \"urn:foo\"; prefix f;%s typedef t { type %s; } container c%d { leaf own { type t; } } }", rev, kinds[i], i)})
+		// every version derives an identity of the same name from a base in a third module
+		c.Sources = append(c.Sources, ymodel.Source{Name: name, Text: fmt.Sprintf("module foo { namespace \"urn:foo\"; prefix f; import idbase { prefix b; }%s typedef t { type %s; } container c%d { leaf own { type t; } } identity same { base b:x; } identity own%d { base same; } }", rev, kinds[i], i, i)})
 	}
+	c.Sources = append(c.Sources, ymodel.Source{Name: "idbase.yang", Text: "module idbase { namespace \"urn:idbase\"; prefix b; identity x; leaf r { type identityref { base x; } } }"})
 	c.CLI = rapid.IntRange(0, 5).Draw(t, "cli") == 0
 	c.Sources = append(c.Sources, ymodel.Source{Name: "user.yang", Text: "module user { namespace \"urn:user\"; prefix u; import foo { prefix f; } leaf l { type f:t; } }"})
 	if rapid.Bool().Draw(t, "dated-importer") {
